@@ -217,6 +217,34 @@ static void blt_case(uint64_t idx, void *vctx)
     free(sbuf); free(sexp); free(dbuf); free(dexp);
 }
 
+/* ---- blts inside ONE buffer whose source and destination rectangles start at the same byte but have different strides: row 0 is copied onto
+ * itself, every further row is distinct memory (packing a padded two-row image in place: strides 2S -> S; mirroring rows around one row: S -> -S).
+ * No destination row overlaps any other source row, so "copies exactly the rectangle" has one meaning. */
+static void blt_inplace_case(uint64_t idx, void *vctx)
+{
+    const blt_ctx *c = vctx;
+    static const int BP[3] = { 8, 16, 32 }, WS_[5] = { 1, 5, 16, 34, 67 }, XS_[2] = { 0, 3 }, HS_[3] = { 2, 3, 6 };
+    int dims[5] = { 3, 5, 2, 2, 3 }, d[5]; vf_decode(idx, dims, 5, d);
+    int bpp = BP[d[0]], w = WS_[d[1]], x = XS_[d[2]], kind = d[3], h = kind == 0 ? 2 : HS_[d[4]];
+    if (kind == 0 && d[4]) return;
+    int S = ((x + w) * bpp + 31) / 32 + 1;                       /* words per row, one spare */
+    int rows = 2 * 6 + 3; size_t size = (size_t)rows * S * 4 * 2;
+    uint8_t *buf = aligned_buf(size), *exp = aligned_buf(size);
+    for (size_t i = 0; i < size; i++) buf[i] = exp[i] = (uint8_t)(vf_mix(i, 91) >> 21);
+    size_t base = kind == 0 ? (size_t)S * 4 : (size_t)7 * S * 4;   /* pack: starts at row 1; mirror: around row 7 */
+    int sstride = kind == 0 ? 2 * S : S, dstride = kind == 0 ? S : -S;
+    pixman_bool_t ret = pixman_blt((uint32_t *)(buf + base), (uint32_t *)(buf + base), sstride, dstride, bpp, bpp, x, 0, x, 0, w, h);
+    vf_count_libcalls(1);
+    if (ret) for (int r = 0; r < h; r++) memmove(exp + base + (ptrdiff_t)r * dstride * 4 + (size_t)x * bpp / 8, exp + base + (ptrdiff_t)r * sstride * 4 + (size_t)x * bpp / 8, (size_t)w * bpp / 8);
+    long off = first_diff(buf, exp, size);
+    if (off >= 0)
+        vf_violation(ret ? "c19-blt-in-place-wrong" : "c19-blt-false-but-modified", "pixman_blt(src = dst = one buffer at byte %zu, src stride %d words, dst stride %d words, bpp %d, (%d,0) -> (%d,0), %dx%d: %s) chain=%s returned %d: "
+                     "byte %ld is %#04x, expected %#04x", base, sstride, dstride, bpp, x, x, w, h, kind ? "rows mirrored around the first row" : "a padded two-row image packed in place", c10_cfg_names[c->cfg], ret, off, buf[off], exp[off]);
+    vf_count_eval(1); if (ret) vf_count_nontrivial(1);
+    vf_outcome(vf_mix(vf_hash64(buf, size, (uint64_t)bpp), idx));
+    free(buf); free(exp);
+}
+
 /* ======================================================================== fill_boxes / fill_rectangles */
 #define IW 11
 #define IH 6
@@ -605,7 +633,7 @@ int main(int argc, char **argv)
                      "6 implementation chains";
     vf_assume("byte-level little-endian pixel addressing of c10_codec.h is the meaning of 'the addressed rectangle'");
     vf_assume("the fill_boxes oracle is pixman's own compositing of a solid image (that is the property's definition); compositing itself is judged by C01/C03");
-    vf_assume("src and dst of a blt are distinct buffers; overlapping blits are not specified and not explored");
+    vf_assume("src and dst of a blt are distinct buffers, or one buffer with rectangles that share their first row only (same start, different strides); blits whose rows overlap otherwise are not specified and not explored");
     vf_assume("destinations behind read/write accessors or with an alpha map are explored on a reduced alphabet only (8 in-bounds box sets x 3 clips x 16 formats x {CLEAR, SRC, OVER, ADD}, default chain)");
     vf_assume("out-of-bounds boxes exceed the 11x6 image by at most 3 pixels/rows so that the overrun stays inside the harness' guard rows");
 
@@ -621,6 +649,7 @@ int main(int argc, char **argv)
         { fill_ctx f; fill_ctx_init(&f, cfg, th); snprintf(nm, sizeof nm, "fill-geometry-%s", c10_cfg_names[cfg]); vf_space_run(nm, f.total, fill_case, &f); }
         { filler_ctx f = { cfg }; snprintf(nm, sizeof nm, "fill-fillers-%s", c10_cfg_names[cfg]); vf_space_run(nm, N_FILLER_CASES, filler_case, &f); }
         { blt_ctx b; blt_ctx_init(&b, cfg, th); snprintf(nm, sizeof nm, "blt-%s", c10_cfg_names[cfg]); vf_space_run(nm, b.total, blt_case, &b); }
+        { blt_ctx b; blt_ctx_init(&b, cfg, th); snprintf(nm, sizeof nm, "blt-in-one-buffer-%s", c10_cfg_names[cfg]); vf_space_run(nm, 3 * 5 * 2 * 2 * 3, blt_inplace_case, &b); }
         {
             static boxes_ctx bc; memset(&bc, 0, sizeof bc); bc.cfg = cfg;
             for (int f = 0; f < 5; f++) c10_make_palette(&bc.pal[f], c10_formats[38 + f].code, 0);
